@@ -524,15 +524,30 @@ impl Prop for C09 {
     s.count(&format!("limit.{}", if limit <= 5 { "1-5" } else if limit <= 20 { "6-20" } else { "21-50" }));
     s.count(&format!("block.{}", match bs.as_u64() { None => "default", Some(x) if x <= 3 => "1-3", Some(x) if x <= 32 => "4-32", _ => "33-300" }));
 
-    // ---- finder: implementation against itself
+    // ---- finder: implementation against itself.  The property failure is established on the
+    // implementation alone (wand/bmw vs bm25).  The *signature* additionally says whether the
+    // wrong result is the one the recorded defect mechanism produces (the mechanism model returns
+    // the same wrong hits): only then does it match a known finding; any other wrong result of
+    // the same strategy is a different violation.
     let wand_ok = same_ranking(&w, &b, limit, 2e-5);
     let bmw_ok = same_ranking(&m, &b, limit, 2e-5);
     if !wand_ok || !bmw_ok {
       let obs = observed(&imp);
-      if hook {
+      let model_ok = model["ok"] == json!(true) && model["negative"] != json!(true);
+      let explained = |ex: &str, r: &Ranking| -> bool {
+        model_ok
+          && (same_ranking(&model_ranking(&model[ex]), r, limit, 2e-5)
+            || model[if ex == "wand" { "knife_wand" } else { "knife_bmw" }] == json!(true))
+      };
+      let all_explained = (wand_ok || explained("wand", &w)) && (bmw_ok || explained("bmw", &m));
+      if hook && all_explained {
         s.fail("prune.score-hook", "wand/bmw differ from bm25 for a query whose score is changed by function_score/script_score/rank_feature (pruning uses BM25 bounds although a score hook is active)", case, obs);
-      } else if wand_ok && !bmw_ok {
+      } else if hook {
+        s.fail("prune.score-hook.unexplained", "wand/bmw differ from bm25 for a query with a score hook, and not in the way the recorded defect (BM25 bounds under a score hook) predicts", case, obs);
+      } else if wand_ok && !bmw_ok && all_explained {
         s.fail("bmw.block-bound", "bmw differs from bm25 on a hook-free query while wand agrees (bound of the cursor's block is not a bound for later blocks)", case, obs);
+      } else if wand_ok && !bmw_ok {
+        s.fail("bmw.differs.unexplained", "bmw differs from bm25 on a hook-free query while wand agrees, and not in the way the recorded block-bound defect predicts", case, obs);
       } else {
         s.fail("wand.differs", "wand differs from bm25 on a hook-free query", case, obs);
       }
